@@ -476,8 +476,19 @@ def check_means(rec, idx, heavy=True):
     m = arr_close(got, e_means, (k,))
     if m:
         findings.append((f'C06/e/get_means/cv{cv}/{d}d', f'get_means ({cvm}, {d}-d array): {m}', {**case, 'got': got.tolist()}))
+    if heavy and cv == 1 and any(e is None for e in e_means) and not all(e is None for e in e_means):
+        # a model without any value: the others keep their means whatever its position (clauses e, f)
+        for p in some_perms(k, idx):
+            with warnings.catch_warnings(), np.errstate(all='ignore'):
+                warnings.simplefilter('ignore')
+                gp = np.asarray(build(p).get_means(), dtype=float)
+            nev += 1
+            if gp.shape != (k,) or not np.allclose(gp, got[list(p)], rtol=1e-12, atol=1e-12, equal_nan=True):
+                findings.append((f'C06/f/permute/means/cv{cv}/nan-model', 'get_means of a result with an all-NaN model depends '
+                                 'on the order of the models', {**case, 'perm': list(p), 'got': gp.tolist(),
+                                                                'expected': got[list(p)].tolist()}))
     if not heavy or any(e is None for e in e_means):
-        return findings, nev              # an array without a single valid sample: nothing to test
+        return findings, nev              # some model without a single valid sample: no p-values to test
     with warnings.catch_warnings(), np.errstate(all='ignore'):
         warnings.simplefilter('ignore')
         first = np.nanmean(ev, axis=0)
@@ -803,8 +814,8 @@ def random_eval_array(rng, k):
         if any(allnan) and not all(allnan):
             if cv == 2:
                 ev[s] = np.nan
-            else:
-                ev[s] = np.where(np.isnan(ev[s]), 1.0, ev[s])
+    if cv == 1 and k >= 2 and rng.integers(3) == 0:
+        ev[0, int(rng.integers(0, k))] = np.nan              # fixed / crossvalidation: one model without any value
     return cv, d, k, ev
 
 
@@ -856,6 +867,34 @@ def record_trace(seed):
 # ------------------------------------------------------------------------------------------------
 # pool entry points
 # ------------------------------------------------------------------------------------------------
+def probe_model_nan(seed):
+    """bootstrap-type results in which exactly one model is NaN everywhere, in every model position.  get_means
+    filters the samples by model 0, so the outcome depends on the position of that model; for these cv_methods no
+    evaluator writes such arrays and no documentation covers them (contract question): counted, not reported.
+    For fixed / crossvalidation the per-model mean is demanded (TLC grid MasksNanModel) - here only cross-checked."""
+    rng = np.random.default_rng(seed)
+    differs, same, viol = {}, 0, []
+    for cvm in CV1 + CV2:
+        for k in (2, 3):
+            for pos in range(k):
+                shape = (1, k, 4) if cvm in CV1 else (4, k, 3)
+                ev = rng.integers(-5, 9, size=shape) / 4.0
+                ev[:, pos] = np.nan
+                with warnings.catch_warnings(), np.errstate(all='ignore'):
+                    warnings.simplefilter('ignore')
+                    got = np.asarray(Result(models(k), ev.copy(), 'cosine', cvm, np.array([0.4, 0.9])).get_means(), dtype=float)
+                    want = np.nanmean(per_sample(ev), axis=0)
+                ok = got.shape == (k,) and np.allclose(got, want, rtol=1e-12, atol=1e-12, equal_nan=True)
+                if ok:
+                    same += 1
+                elif cvm in CV1:
+                    viol.append((f'C06/e/get_means/cv1/nan-model', f'{cvm}: means {got.tolist()} instead of {want.tolist()} '
+                                 f'with model {pos} all NaN', {'cv_method': cvm, 'evaluations': np.where(np.isnan(ev), NAN, ev).tolist()}))
+                else:
+                    differs[f'{cvm}/pos{pos}'] = differs.get(f'{cvm}/pos{pos}', 0) + 1
+    return same, differs, viol
+
+
 def replay_chunk(args):
     """replay a chunk of emitted JSON lines; returns counters and findings grouped by key"""
     base, lines, heavy_mod, means_mod, seed = args
